@@ -29,8 +29,17 @@ impl Shards {
         self.shard_count = shard_count;
         self.shard_len_64 = shard_len_64;
 
+        #[cfg(feature = "verif-hooks")]
+        let old_len = self.data.len();
+
         self.data
             .resize(self.shard_count * self.shard_len_64, [0; 64]);
+
+        #[cfg(feature = "verif-hooks")]
+        {
+            let retained = std::cmp::min(old_len, self.data.len());
+            crate::verif_hooks::poison(&mut self.data[..retained]);
+        }
     }
 
     pub(crate) fn insert(&mut self, index: usize, shard: &[u8]) {
